@@ -420,17 +420,28 @@ def has_unsafe_operation(ast: AST) -> bool:
     if collect_ast(ast, "Interval"):
         return True
 
-    if any(map(lambda x: x.operator_type == UnaryOperator.Absolute, collect_ast(ast, "UnaryOperation"))):
-        return True
+    # collect_ast only returns the outermost operations, so look into their operands as well
+    for unary in collect_ast(ast, "UnaryOperation"):
+        if unary.operator_type in (UnaryOperator.Absolute, UnaryOperator.Negation):
+            return True
+        if has_unsafe_operation(unary.argument):
+            return True
 
     invalid = (
         BinaryOperator.XOr,
+        BinaryOperator.Or,
+        BinaryOperator.And,
         BinaryOperator.Power,
         BinaryOperator.Modulo,
         BinaryOperator.Division,
         BinaryOperator.Multiplication,
     )
-    return any(map(lambda x: x.operator_type in invalid, collect_ast(ast, "BinaryOperation")))
+    for binary in collect_ast(ast, "BinaryOperation"):
+        if binary.operator_type in invalid:
+            return True
+        if has_unsafe_operation(binary.left) or has_unsafe_operation(binary.right):
+            return True
+    return False
 
 
 def _collect_binding_information_simple_literal(
@@ -449,7 +460,10 @@ def _collect_binding_information_simple_literal(
                 if (
                     len(variables) == 1
                     and not has_unsafe_operation(arg)
-                    or len(collect_ast(arg, "BinaryOperation")) + len(collect_ast(arg, "UnaryOperation")) == 0
+                    or len(collect_ast(arg, "BinaryOperation"))
+                    + len(collect_ast(arg, "UnaryOperation"))
+                    + len(collect_ast(arg, "Interval"))
+                    == 0
                 ):
                     bound_variables.update(variables)
                 else:
